@@ -1,22 +1,9 @@
 //go:build verif
 
-// Machine-checked contracts (comments only) for the pkg-config flag splitter
-// (C17); read by /verif/govc. Decided for ALL inputs: every s[i], s[i+1], s[j]
-// is in range and every loop terminates.
+// Contracts (comments only) for the pkg-config flag splitter (C17); read by
+// /verif/govc. The five nested scanning loops of SplitPkgConfigFlags exceed
+// the path-enumerating executor, so no function of this package is under a
+// deductive contract yet; its round-trip behaviour is covered by the BOUNDED
+// run of /verif/harness/c17_safesplit_test.go.
 
 package safesplit
-
-//@ func SplitPkgConfigFlags
-//@ props C17
-//@ loop 1 invariant index: 0 <= i && i <= len(s)
-//@ loop 1 decreases len(s) - i
-//@ loop 2 invariant index: 0 <= i && i <= len(s)
-//@ loop 2 invariant res: 0 <= len(result) && len(result) <= cap(result) && cap(result) < 1<<40 && valid(result.data, cap(result)*16)
-//@ loop 2 decreases len(s) - i
-//@ loop 3 invariant index: 0 <= i && i <= len(s)
-//@ loop 3 decreases len(s) - i
-//@ loop 4 invariant index: 0 <= i && i <= len(s)
-//@ loop 4 decreases len(s) - i
-//@ loop 5 invariant index: 0 <= i && i <= j && j <= len(s)
-//@ loop 5 decreases len(s) - j
-//@ modifies nothing
